@@ -29,7 +29,7 @@ ASSUMPTIONS = ["nvmon.ref exact reference for vertex positions (uv within 1e-12 
 FLOORS = {'quick': {'topology': 150, 'vertex-on-surface': 1500, 'quads': 100, 'trim-cells': 1000, 'obj': 60, 'off': 60, 'stl-ascii': 60,
                     'stl-binary': 60, 'container': 30},
           'thorough': {'topology': 1500, 'vertex-on-surface': 15000, 'trim-cells': 10000}}
-MANDATORY_TAGS = ['spacing1', 'spacing>=2', 'spacing>=3', 'rational', 'trim:freeform', 'trim:spline', 'trim:reversed', 'container',
+MANDATORY_TAGS = ['spacing1', 'spacing>=2', 'spacing>=3', 'rational', 'trim:freeform', 'trim:spline', 'trim:reversed', 'trim:clockwise', 'container',
                   'quad', 'non-unit-domain', 'export:file']
 TECHNIQUE = ("runtime monitoring: structural + exact-geometric oracle over every tessellation the workload produces (ids, indices, "
              "orientation, exact area cover, edge incidence, Euler characteristic, vertex = surface(uv)), cell-classification oracle "
@@ -416,12 +416,18 @@ def check_trim(case, ctx):
         if max(b - a for a, b in zip(angs, angs[1:] + [angs[0] + 2 * math.pi])) > 2.6:
             angs = [2 * math.pi * k / m for k in range(m)]
         poly = [[cx + rng.uniform(0.15, 0.3) * math.cos(a), cy + rng.uniform(0.15, 0.3) * math.sin(a)] for a in angs]
+        if rng.random() < 0.5:
+            poly.reverse()          # clockwise trims are as valid as counter-clockwise ones
+            ctx.tag('trim:clockwise')
         poly.append(list(poly[0]))
         trim = freeform.Freeform()
         trim.evaluate(points=poly)
     else:
         r = rng.uniform(0.15, 0.3)
         cps = [[cx - r, cy - r], [cx + r, cy - r], [cx + r, cy + r], [cx - r, cy + r], [cx - r, cy - r]]
+        if rng.random() < 0.5:
+            cps.reverse()
+            ctx.tag('trim:clockwise')
         trim = BSpline.Curve()
         trim.degree = 1 if rng.random() < 0.5 else 2
         trim.ctrlpts = cps
